@@ -401,6 +401,8 @@ def classify_result(r):
         return "bound"
     if "VERIF_REACH_END" in desc:
         return "reach"
+    if re.search(r"C\d\d\.INV\.", desc):
+        return "inv"            # inductive invariant not preserved: the induction does not close
     return "cand"
 
 
@@ -755,6 +757,10 @@ def run_check(prop, tier, only, keep, seed):
                                            % (r.get("description", ""), r.get("property", "")))
             for r in kinds.get("reach", []):
                 rec["inconclusive"].append("VERIF_REACH_END failed in a non-twin harness")
+            for r in kinds.get("inv", []):
+                rec["inconclusive"].append(
+                    "harness invariant not preserved (%s): the inductive argument does not close for "
+                    "this code; semantic clauses are decided separately" % r.get("description", ""))
             cands = kinds.get("cand", [])
             chosen, seen_labels = [], set()
             for r in cands:
